@@ -392,7 +392,7 @@ def eval_profiles(case, ctx):
     ctx.sample({"family": "profiles", "n": n, "kmax": case["kmax"], "checks_in_shard": cnt})
 
 
-def _read_profiles(c, p, read, known_iso, delta, ctx):
+def _read_profiles(c, p, read, known_iso, delta, ctx, second_iso=None):
     """Read profile over the exons / introns of one known chain: +1 MUST when exactly one known feature is within
     delta of a read feature and it is that one; never +1 when no read feature is within delta; -1 MUST when the read
     spans the feature (exon: inside (first exon end+delta, last exon start-delta); intron: inside the read span)
@@ -422,6 +422,12 @@ def _read_profiles(c, p, read, known_iso, delta, ctx):
             span = (read[0][1] + delta, read[-1][0] - delta)
         else:
             known = [tuple(x) for x in c.junctions_from_blocks(known_iso)]
+            if second_iso:
+                # the introns of a gene come from several isoforms: near-identical alternatives lie next to each other
+                known = sorted(set(known) | set(tuple(x) for x in c.junctions_from_blocks(second_iso)))
+                if any(b - a + 1 <= delta for a, b in known):
+                    continue
+                gene_region = (min(known_iso[0][0], second_iso[0][0]), max(known_iso[-1][1], second_iso[-1][1]))
             rf = [tuple(x) for x in c.junctions_from_blocks(read)]
             if not known:
                 continue
@@ -443,6 +449,14 @@ def _read_profiles(c, p, read, known_iso, delta, ctx):
             verdict = None
             if matches and not competing:
                 verdict = 1
+            elif matches:
+                # several known features within delta of the read feature: "the closest is present" - a known feature
+                # that is strictly the closest one (sum of the two end distances) for one of its read features is +1
+                for r in matches:
+                    near = [k2 for k2 in known if abs(r[0] - k2[0]) <= delta and abs(r[1] - k2[1]) <= delta]
+                    dist = lambda x: abs(r[0] - x[0]) + abs(r[1] - x[1])
+                    if all(dist(k) < dist(k2) for k2 in near if k2 != k):
+                        verdict = 1
             elif not matches:
                 inside = span[0] <= k[0] and k[1] <= span[1] if kind == "exon" else \
                     (span[0] <= k[0] and k[1] <= span[1])
@@ -571,7 +585,19 @@ def mid_profiles(draw):
             out.append((a, b))
     if not out:
         out = [(read[0][0], read[0][1])]
-    return {"delta": delta, "read": read, "known": out}
+    # a second isoform of the gene: the first one with one exon boundary moved by 1..delta (NAGNAG-like alternatives)
+    second = None
+    if len(out) >= 2 and delta >= 1 and draw(st.booleans()):
+        i = draw(st.integers(0, len(out) - 2))
+        d = draw(st.integers(1, delta)) * draw(st.sampled_from([-1, 1]))
+        sec = [list(x) for x in out]
+        if draw(st.booleans()):
+            sec[i][1] += d
+        else:
+            sec[i + 1][0] += d
+        if all(a <= b for a, b in sec) and all(sec[j + 1][0] > sec[j][1] + 1 for j in range(len(sec) - 1)):
+            second = [tuple(x) for x in sec]
+    return {"delta": delta, "read": read, "known": out, "second": second}
 
 
 def eval_mid(case, ctx):
@@ -580,6 +606,8 @@ def eval_mid(case, ctx):
     known = [tuple(x) for x in case["known"]]
     ctx.current_case = case
     n = _read_profiles(c, p, read, known, case["delta"], ctx)
+    if case.get("second"):
+        n += _read_profiles(c, p, read, known, case["delta"], ctx, second_iso=[tuple(x) for x in case["second"]])
     n += _split_profiles(c, p, read, known, ctx)
     ctx.cls("mid:delta=%d" % case["delta"])
     if n and any(b - a + 1 <= case["delta"] + 2 for a, b in read + known):
